@@ -97,10 +97,14 @@ func vhC41Dialer() {
 type c41Resolver struct {
 	addrs []net.IPAddr
 	calls int
+	takes time.Duration // the lookup takes this long
 }
 
 func (r *c41Resolver) LookupIPAddr(ctx context.Context, host string) ([]net.IPAddr, error) {
 	r.calls++
+	if r.takes > 0 {
+		time.Sleep(r.takes)
+	}
 	return r.addrs, nil
 }
 
@@ -119,6 +123,8 @@ func vhC41Rotation() {
 		c41Behaviour[ip.String()+":80"] = vChoose("endpoint", 3)
 	}
 	_ = tried
+	// a name lookup that takes 400 ms is part of the call's time budget
+	r.takes = [...]time.Duration{0, 400 * time.Millisecond}[vChoose("lookupTakes", 2)]
 	d := &TCPDialer{Concurrency: 1, Resolver: r}
 	start := time.Now()
 	c, err := d.DialTimeout("h.test:80", time.Second)
